@@ -1,4 +1,5 @@
 """C13 Cube picking"""
+import eevent
 import epick
 import eunits
 import epost
@@ -24,9 +25,25 @@ def run(ctx):
                 "choice decides once; the entry written is level_to_var(level); the dd variant returns the sub-cube itself on "
                 "the lo branch (zero-suppressed variable) and node(level; sub, Empty) on the hi branch.")
     nz = epick.run_zbdd(ctx, F)
+    ctx.explain("E-TABLE.pick.literal: the BCDD add_literal_to_cube (a builtin of the step rules) is interpreted for sub in {x, !x, "
+                "true} and both polarities: the result denotes (v | !v) & sub for all values, is created at the given level and "
+                "keeps the complement-edge normal form. E-TABLE.pick.uniform: the choice closure of pick_cube_uniform_edge "
+                "takes the then-branch iff rng < count(then) / (count(then) + count(else)) over the cofactors of the current "
+                "node, both counts over num_levels and the same cache.")
+    na = epick.check_add_literal(ctx, F)
+    ctx.floor("E-TABLE.pick.literal", "add_literal_to_cube situations", na, 6)
+    nu = epick.check_uniform(ctx, F)
+    ctx.floor("E-TABLE.pick.uniform", "oracle paths of the choice closure", nu, 2)
     ctx.floor("E-TABLE.pick", "ZBDD situations of the cube-picking step", nz, 18)
     ctx.explain("E-POST.mapusers: pick_cube_uniform weights its choices with model counts; the count cache's map (whose keys are "
                 "kind-specific: BCDDs fold the complement tag in) is touched only by SatCountCache and sat_count_edge::inner.")
     epost.check_count_cache_users(ctx, F)
     ctx.floor("E-TABLE.pick", "abstract situations of the cube-picking step", n, 80)
+    ctx.explain("E-EVENT: the count cache that weights uniform picking is keyed by node ids and cleared when (gc_count, vars) "
+                "changes: Manager::reorder and Manager::gc of both managers bump the gc epoch on every path (node ids are "
+                "recycled by level swaps even when the node count does not shrink). E-POST: SatCountCache::clear_if_invalid "
+                "compares both.")
+    eevent.check_manager(ctx, F, "oxidd_manager_index")
+    eevent.check_manager(ctx, F, "oxidd_manager_pointer")
+    epost.check_clear_if_invalid(ctx, F)
     ctx.not_decided = "that the result implies the function, don't-care minimality, statistical uniformity"
